@@ -146,6 +146,43 @@ func Mutations(data []byte, st *State, emit func(m Mutation) bool) {
 				}
 			}
 		}
+		// --- freed twice, the second occurrence away from the first (a damaged list need not be sorted): at the end and at the start ---
+		for i, f := range st.FreeIDs {
+			if i != len(st.FreeIDs)-1 {
+				ids := append(append([]uint64{}, st.FreeIDs...), f)
+				img := clone(data)
+				if writeFreelist(img, ps, st.Meta.Freelist, ids) {
+					if !emit(Mutation{"dup-free", fmt.Sprintf("free id %d listed again at the end of the list", f), img}) {
+						return
+					}
+				}
+			}
+			if i != 0 {
+				ids := append([]uint64{f}, st.FreeIDs...)
+				img := clone(data)
+				if writeFreelist(img, ps, st.Meta.Freelist, ids) {
+					if !emit(Mutation{"dup-free", fmt.Sprintf("free id %d listed again at the start of the list", f), img}) {
+						return
+					}
+				}
+			}
+		}
+		// --- reachable and free, listed out of order: each reachable page id appended after the last free id ---
+		for _, p := range pages {
+			for k := uint64(0); k <= uint64(p.Overflow); k++ {
+				id := p.ID + k
+				if n := len(st.FreeIDs); n == 0 || st.FreeIDs[n-1] < id {
+					continue // the sorted variant above already is this list
+				}
+				ids := append(append([]uint64{}, st.FreeIDs...), id)
+				img := clone(data)
+				if writeFreelist(img, ps, st.Meta.Freelist, ids) {
+					if !emit(Mutation{"free-reachable", fmt.Sprintf("reachable page %d (of %s page %d) appended to the end of the freelist", id, p.Kind, p.ID), img}) {
+						return
+					}
+				}
+			}
+		}
 	}
 	// --- double reference: point each branch element / bucket root at each other referenced page ---
 	for _, p := range pages {
